@@ -67,10 +67,24 @@ def run(ctx):
     from sa.util import canon_atom as _ca
     sct = p.method("SyncInterpreter", "_cancel_state_tasks")
     sel = [x for x in own_nodes(sct.node) if isinstance(x, (ast.ListComp, ast.GeneratorExp, ast.SetComp)) and "_after_events" in norm(x.generators[0].iter)]
-    if c.expect("R9", "selection of the timers of the state being left", len(sel), 1, sct, "SyncInterpreter._cancel_state_tasks no longer selects timers from the cancel-flag table"):
-        x = sel[0]
-        kv = norm(x.generators[0].target)
-        conds = x.generators[0].ifs
+    # the same selection written as a loop:  for k in list(self._after_events.keys()): if <cond>: selected.append(k)
+    sel_loops = []
+    for l_ in own_nodes(sct.node):
+        if isinstance(l_, ast.For) and "_after_events" in norm(l_.iter) and isinstance(l_.target, ast.Name):
+            for y in ast.walk(l_):
+                if isinstance(y, ast.If) and not y.orelse and any(isinstance(z, ast.Call) and isinstance(z.func, ast.Attribute) and z.func.attr in ("append", "add") and z.args and
+                                                                 norm(z.args[0]) == l_.target.id for st_ in y.body for z in ast.walk(st_)):
+                    sel_loops.append((l_, y))
+    if c.expect("R9", "selection of the timers of the state being left", len(sel) + len(sel_loops), 1, sct, "SyncInterpreter._cancel_state_tasks no longer selects timers from the cancel-flag table"):
+        if sel:
+            x = sel[0]
+            kv = norm(x.generators[0].target)
+            conds = x.generators[0].ifs
+        else:
+            l_, y_ = sel_loops[0]
+            x = y_
+            kv = l_.target.id
+            conds = [y_.test]
         cond = conds[0] if len(conds) == 1 else None
         parts = cond.values if isinstance(cond, ast.BoolOp) and isinstance(cond.op, ast.Or) else ([cond] if cond is not None and not isinstance(cond, ast.BoolOp) else [])
         shapes = [_ca(a) for a in parts]
@@ -80,6 +94,8 @@ def run(ctx):
              f"the selection '{norm(cond) if cond is not None else [norm(z) for z in conds] or 'no filter'}' is not 'the key is the state id or starts with its prefix': leaving one state "
              f"cancels the pending timers of other active states (sibling regions, ancestors), or leaves its own running", x)
         selv = next((norm(a.targets[0]) for a in own_nodes(sct.node) if isinstance(a, ast.Assign) and any(x is y for y in ast.walk(a.value))), None)
+        if selv is None and sel_loops:
+            selv = next((norm(z.func.value) for st_ in sel_loops[0][1].body for z in ast.walk(st_) if isinstance(z, ast.Call) and isinstance(z.func, ast.Attribute) and z.func.attr in ("append", "add")), None)
         sets = [y for y in own_nodes(sct.node) if isinstance(y, ast.Call) and isinstance(y.func, ast.Attribute) and y.func.attr == "set" and "_after_events" in norm(y.func.value)]
         if c.expect("R9", "signalling of the selected cancel flags", len(sets), 1, sct, "SyncInterpreter._cancel_state_tasks no longer sets the cancel flags it selected: the timer threads keep waiting and fire"):
             for y in sets:
